@@ -12,6 +12,41 @@ BOUNDS = {
 ASSUMPTIONS = ["round trips are taken component by component (slices): a batch on both sides is a documented refusal"]
 
 
+
+def bayes_npoints_case(kind, Dx, Dy, Rc, Rx, N=2, semi=(), timeout=900):
+    """Bayes identity with SEVERAL points at once: post.condition_on_x(y) for N points returns R*N components laid out r*N+n;
+    component (r, n) evaluated at x plus p_y(y_n) must equal p(y_n|x) p_r(x)"""
+    import numpy as np
+    from ..case import Case
+    from .. import spec
+    from .common import make_cond, cond_spec_params, spec_cond_logpdf
+    from .condprops import cond_decl, prior_decl, make_prior, joint_layout
+    cid = f"C09/bayes-npoints/{kind}/Dx{Dx}Dy{Dy}/Rc{Rc}Rx{Rx}N{N}" + ("/semi-" + "-".join(semi) if semi else "")
+    cfg = dict(what="Bayes identity at several points in one call (layout r*N+n)", conditional=kind, Dx=Dx, Dy=Dy, R_cond=Rc, R_x=Rx, N=N, concrete_blocks=list(semi))
+    R = Rc * Rx
+
+    def declare(b):
+        cond_decl(b, kind, Rc, Dy, Dx, semi); prior_decl(b, Rx, Dx, semi); b.free("x", (1, Dx)); b.free("y", (N, Dy))
+
+    def fn(**A):
+        c = make_cond(kind, "c_", A, Dy, Dx)
+        px = make_prior(A)
+        post = c.affine_conditional_transformation(px)
+        py = c.affine_marginal_transformation(px)
+        return {"post": post.condition_on_x(A["y"]).evaluate_ln(A["x"]), "py": py.evaluate_ln(A["y"])}    # [R*N, 1], [R, N]
+
+    def claims(I, O, ops):
+        cp = cond_spec_params(ops, kind, "c_", I, Rc, Dy, Dx)
+        lhs = ops.zeros((R, N)); rhs = ops.zeros((R, N))
+        for k, (rc, rx) in enumerate(joint_layout(Rc, Rx)):
+            for n in range(N):
+                lhs[k, n] = O["post"][k * N + n, 0] + O["py"][k, n]
+                rhs[k, n] = spec_cond_logpdf(ops, cp, rc, I["x"][0], I["y"][n]) + spec.logN(ops, I["x"][0], I["mx"][rx], I["Sx"][rx])
+        return [("p(x|y_n) p(y_n) = p(y_n|x) p(x) for every point n and component r (r*N+n)", lhs, rhs)]
+
+    return Case(cid, PROP, cfg, declare, fn, claims, timeout=timeout)
+
+
 def cases(tier, seed=0):
     out = []
     batches = [(1, 1), (1, 2), (2, 1)]
@@ -52,6 +87,11 @@ def cases(tier, seed=0):
                             out.append(make_case(PROP, "bayes", kind, Dx, Dy, Rc, Rx, semi=semi, timeout=3000))
                     if Rc * Rx <= 2:
                         out.append(make_case(PROP, "roundtrip", kind, Dx, Dy, Rc, Rx, semi=("Sx", "Sy"), timeout=1800, extra="t"))
+    for kind in KINDS:
+        d = (1, 1) if kind.startswith("identity") else (1, 2)
+        out.append(bayes_npoints_case(kind, d[0], d[1], 1, 2))
+        if kind != "nncontrol":
+            out.append(bayes_npoints_case(kind, d[0], d[1], 2, 1))
     # constructor / history variants: built from the precision only; update_Sigma before the operation
     for kind in KINDS:
         dd = (2, 2) if kind.startswith("identity") else (2, 1)
